@@ -104,12 +104,18 @@ pub fn judge(case: &Case, kf: &ActiveKf) -> Verdict {
                 return Verdict::Known("KF-C01-12");
             }
             let act: Vec<&'static str> = QUIRK_KFS.iter().cloned().filter(|id| kf.has(id)).collect();
+            // the answer under a known deviation may itself be one the specification leaves open
+            // (ties between 2 and 2.0 under max(), a window over tied keys): such a case cannot be judged
+            let mut open_under_quirk = false;
             for id in &act {
                 let mut q = Quirks::default();
                 set_quirk(&mut q, id);
                 if let Ok(s2) = ref_read(&case.g, &case.q, &q) {
                     if cmp_q(&s2) {
                         return Verdict::Known(id);
+                    }
+                    if (s2.numeric_grouping_ambiguity || s2.nondeterministic) && s2.rows.len() != spec.rows.len() || (s2.numeric_grouping_ambiguity || s2.nondeterministic) && norm::bag_diff(&s2.rows, &spec.rows, &case.modes).is_some() {
+                        open_under_quirk = true;
                     }
                 }
             }
@@ -137,6 +143,9 @@ pub fn judge(case: &Case, kf: &ActiveKf) -> Verdict {
             }
             if kf.has("KF-C01-9") && query_closes_varlen_on_bound_var(&case.q) {
                 return Verdict::Skipped("excluded:KF-C01-9(varlen closing on a bound node)");
+            }
+            if open_under_quirk {
+                return Verdict::Skipped("undetermined_under_known_deviation");
             }
             Verdict::Violation(format!("{d}  query: {text}\n  engine rows: {}\n  spec rows: {}", rows.rows.len(), spec.rows.len()))
         }
